@@ -116,7 +116,7 @@ def fixed_point_iteration(
 
         scale = np.maximum(np.abs(iterates[1]), configuration.atol)
         relative_difference = absolute_difference / scale
-        converged[:] = (absolute_difference < configuration.atol) & (
+        converged[...] = (absolute_difference < configuration.atol) & (
             relative_difference < configuration.rtol
         )
 
@@ -153,7 +153,7 @@ def fixed_point_iteration(
             raise ValueError(msg)
 
         else:
-            iterates[2][~converged] = np.nan
+            iterates[2] = where(converged, iterates[2], np.nan)
             _log(msg, INFO)
 
     # Reduce identation level in logging
